@@ -5,6 +5,8 @@ import (
 	"fmt"
 	"strings"
 	"time"
+
+	"go.amzn.com/lambda/interop"
 )
 
 // C12: Runtime API calls are answered according to the lifecycle automaton (DESIGN appendix A.1).
@@ -48,6 +50,9 @@ func scenC12(r *Run, job *Job) {
 	if t.Chance(1, 3) {
 		r.ReorderNum, r.ReorderDen = 1, 4
 	}
+	// snapshot mode with an operator: the sandbox is initialised eagerly, the runtime of the first generation parks
+	// in restore/next, a restore request releases it, and its script continues in the Restoring state
+	restore := snap && t.Chance(1, 2)
 	w := r.NewWorld(WorldCfg{TimeoutSec: timeoutSec, InitCaching: snap}, job.Seed)
 	e := w.NewEngine()
 	e.Bound = time.Duration(nInv*(timeoutSec+8)+20) * time.Second
@@ -58,6 +63,9 @@ func scenC12(r *Run, job *Job) {
 		ord := w.GenOrdinal(p.Gen)
 		if p.IsRT && ord <= 3 {
 			sc := drawC12Script(t, snap)
+			if restore && ord == 1 {
+				sc = append([]Op{{Kind: "restorenext"}}, sc...)
+			}
 			scripts[p.Gen] = sc
 			b.Script = sc
 			b.ThenHealthy = t.Chance(2, 3)
@@ -67,7 +75,41 @@ func scenC12(r *Run, job *Job) {
 	for i := 0; i < nInv; i++ {
 		e.Plan = append(e.Plan, InvSpec{Payload: Tagged(fmt.Sprintf("ev%d", i+1), 16), Delay: []time.Duration{0, 0, 50 * time.Millisecond}[t.Draw(3)]})
 	}
-	r.Desc = fmt.Sprintf("C12 snap=%v inv=%d reorder=%d/%d", snap, nInv, r.ReorderNum, r.ReorderDen)
+	if restore {
+		r.NextStep()
+		r.Go(func() { EagerInit(w.Builder.LambdaInvokeAPI(), int64(timeoutSec), w.BS) })
+		r.Settle()
+		restoreStarted, restoreDone := false, false
+		e.Extra = func() []action {
+			rt := rtActor(e, 1)
+			if restoreStarted || rt == nil || !rt.Busy() || rt.Cur.Tag != "rt-restorenext" {
+				return nil
+			}
+			return []action{{"operator restore", func() {
+				restoreStarted = true
+				r.NextStep()
+				r.Fault("restore-request")
+				r.Go(func() {
+					w.Server.Restore(&interop.Restore{AwsKey: "AKIAC12", AwsSecret: "s", AwsSession: "t", CredentialsExpiry: time.Date(2000, 1, 2, 0, 0, 0, 0, time.UTC), RestoreHookTimeoutMs: 2000, LogStreamName: "stream"})
+					restoreDone = true
+					e.Ver++
+				})
+				r.Settle()
+			}}}
+		}
+		// invocations start only once the restore is over (or can never start)
+		e.Hold = func() bool {
+			rt := rtActor(e, 1)
+			if rt == nil {
+				return true
+			}
+			if !restoreStarted {
+				return rt.P.Alive && r.Now() < 20*time.Second
+			}
+			return !restoreDone
+		}
+	}
+	r.Desc = fmt.Sprintf("C12 snap=%v restore=%v inv=%d reorder=%d/%d", snap, restore, nInv, r.ReorderNum, r.ReorderDen)
 	r.Logf("%s", r.Desc)
 	e.Stuck = func() { r.Failf("C12.hang", "plan did not finish within the bound") }
 	e.Run()
@@ -171,8 +213,13 @@ func c12Judge(r *Run, w *World, a *Actor, snap bool) {
 				break
 			}
 			if state == fresh {
-				// parked until a restore (or, in the emulator, the first invocation) releases it: what it then returns is C18's subject
-				state = unspecified
+				// parked until a restore (or, in the emulator, the first invocation) releases it
+				if c.Status == 200 {
+					r.Probe("entered-restoring")
+					state = restoring
+				} else {
+					state = unspecified
+				}
 				break
 			}
 			r.Check(c.Status == 403, "C12.restore-next-late", "%s: restore/next in state %s answered %d %s, expected 403", who, names[state], c.Status, summarize(c.Body))
